@@ -22,7 +22,7 @@ PROGRAMS = {
     'evaluate': dict(crate='evaluate', target='bin', bin_name='evaluate', extra=[dict(crate='vaporetto'), dict(crate='vaporetto_rules')]),
 }
 UNIT_CAP = 150
-BUDGET_S = {'quick': 240, 'thorough': 2400}
+BUDGET_S = {'quick': 600, 'thorough': 1200}      # wall-clock safety caps (exceeding one is reported as inconclusive); typical quick runs take 1-200 s
 
 # patterns are over NORMALISED characters (full-width a, b, 1) and hiragana, so that --no-norm changes predictions
 SHAPE = {'cw': 2, 'tw': 2, 'char': ['ａ', 'ｂａ', 'あ'], 'type': ['R', 'RH'], 'dict': ['ａあ'],
@@ -447,7 +447,8 @@ def make_evaluate(e, progs, job, st):
             st['got'] = 'n/a (%s: %s) %r' % (type(ex).__name__, ex, got[:40])
         if os.environ.get('C20_DEBUG'):
             print('EXP', repr(text)); print('GOT', repr(st['got']))
-        e.check(len(got) == len(exp) and bytes_eq(e, got, exp), 'evaluate prints the measures of the library predictions')
+        # the property is about the numbers (counts, precision, recall, F1), not the wording around them: compare the numeric tokens in order
+        e.check(same_numbers(st['got'], text), 'evaluate prints the measures of the library predictions')
 
     def describe(m):
         mj = P.model_json(st['ms'], m) if 'ms' in st else None
@@ -458,6 +459,33 @@ def make_evaluate(e, progs, job, st):
         return {'job': job['name'], 'lines': st.get('lines')}
     e.sample = sample
     return harness, describe
+
+
+_NUM = None
+
+
+def numbers(text):
+    import re
+    global _NUM
+    if _NUM is None:
+        _NUM = re.compile(r'NaN|-?inf\b|(?<![A-Za-z0-9_.])-?\d+(?:\.\d+)?(?:[eE][+-]?\d+)?')
+    out = []
+    for t in _NUM.findall(text or ''):
+        out.append(float('nan') if t == 'NaN' else float(t))
+    return out
+
+
+def same_numbers(got, want):
+    a, b = numbers(got if isinstance(got, str) else ''), numbers(want)
+    if len(a) != len(b):
+        return False
+    for x, y in zip(a, b):
+        if x != x or y != y:
+            if not (x != x and y != y):
+                return False
+        elif x != y and abs(x - y) > 1e-12 * max(1.0, abs(y)):
+            return False
+    return True
 
 
 def tags_key(e, tags):
@@ -606,7 +634,7 @@ def confirm(sc, replay):
         return True, {'native_violations': bad}
     text = out.decode('utf-8', 'replace')
     if job['tool'] == 'evaluate':
-        if text != sc.get('expected'):
+        if not same_numbers(text, sc.get('expected') or ''):
             bad.append('evaluate printed %r, the library predictions give %r' % (text, sc.get('expected')))
         return bool(bad), {'native_violations': bad}
     outs = native_reference(replay, sc)
